@@ -39,6 +39,7 @@ pub fn record(id: usize, prop: &str, text: &str, row_lines: Option<Vec<usize>>, 
     };
     let parsed = guarded(|| ParsedTestCase::from_str(text));
     let mut err_spans: Vec<J> = vec![];
+    let mut err_kind = String::new();
     let (res, dump, spans_ok, render_ok, msg) = match parsed {
         Err(p) => ("panic", empty_dump(), true, true, p),
         Ok(Ok(p)) => {
@@ -49,6 +50,11 @@ pub fn record(id: usize, prop: &str, text: &str, row_lines: Option<Vec<usize>>, 
             // C09: every location lies within the source on character boundaries, and the error renders
             let spans_ok = e.at.iter().all(|sp| sp.start <= sp.end && sp.end <= text.len() && text.is_char_boundary(sp.start) && text.is_char_boundary(sp.end));
             let msg = format!("{:?}", e.at);
+            // the variant of the (crate-private) error kind, from the Debug text: `ParseError { kind: Variant ...`
+            let dbg = format!("{e:?}");
+            if let Some(p) = dbg.find("kind: ") {
+                err_kind = dbg[p + 6..].chars().take_while(|c| c.is_ascii_alphanumeric()).collect();
+            }
             err_spans = e.at.iter().map(|sp| json!([sp.start, sp.end])).collect();
             let src = text.to_string();
             let render_ok = guarded(move || {
@@ -62,7 +68,7 @@ pub fn record(id: usize, prop: &str, text: &str, row_lines: Option<Vec<usize>>, 
     };
     json!({
         "ev": "parse", "id": id, "prop": prop, "cs": cs, "lexed": lexed, "tokens": tokens, "res": res, "dump": dump,
-        "reparse_ok": true, "has_ref": false, "ref_stmts": [], "err_spans": err_spans, "spans_ok": spans_ok, "render_ok": render_ok, "has_truth": row_lines.is_some(), "row_lines": row_lines.unwrap_or_default(),
+        "reparse_ok": true, "has_ref": false, "ref_stmts": [], "err_spans": err_spans, "err_kind": err_kind, "spans_ok": spans_ok, "render_ok": render_ok, "has_truth": row_lines.is_some(), "row_lines": row_lines.unwrap_or_default(),
         "group": group, "note": note, "msg": msg, "text": text,
     })
 }
